@@ -64,7 +64,9 @@ impl std::error::Error for Error {}
 /// assert_eq!(signature.unwrap().len(), 136);
 /// ```
 pub fn strip_pgp_signature(input: &str) -> Result<(String, Option<String>), Error> {
-    let mut lines = input.lines();
+    // Lines end at a line feed. (`str::lines` would also swallow a carriage
+    // return in front of it, which belongs to the signed text.)
+    let mut lines = input.strip_suffix('\n').unwrap_or(input).split('\n');
     let first_line = if let Some(line) = lines.next() {
         line
     } else {
